@@ -205,7 +205,7 @@ func slotInfixFn(p *Parser, left ast.Expression) ast.Expression { return nil }
 //@ group parseFrame transitive
 //@   requires [inv] parserInv(p)
 //@   modifies p.CurrentToken, p.PeekToken, p.errors, p.contextStack, p.currentExpressionPrecedence
-//@   modifies p.lexer.position, p.lexer.readPosition, p.lexer.CurrentChar, p.lexer.Line, p.lexer.Column, p.lexer.hadNewlineBefore, p.lexer.leadingComments
+//@   modifies p.lexer.position, p.lexer.readPosition, p.lexer.CurrentChar, p.lexer.Line, p.lexer.Column, p.lexer.hadNewlineBefore, p.lexer.leadingComments, p.lexer.carriedComments
 //@   ensures [inv@C11] parserInv(p)
 //@   ensures [ctx@C16] sameCtx(p.contextStack, old(p.contextStack))
 //@   ensures [cep@C04] p.currentExpressionPrecedence == old(p.currentExpressionPrecedence)
@@ -319,7 +319,7 @@ func lemma_parseFrame_trans(p *Parser) {
 //@   props C11 C16 C04 C01 C15 C13 C02
 //@   requires [lexer] p.lexer != nil && lexer.LexInv(p.lexer)
 //@   modifies p.CurrentToken, p.PeekToken
-//@   modifies p.lexer.position, p.lexer.readPosition, p.lexer.CurrentChar, p.lexer.Line, p.lexer.Column, p.lexer.hadNewlineBefore, p.lexer.leadingComments
+//@   modifies p.lexer.position, p.lexer.readPosition, p.lexer.CurrentChar, p.lexer.Line, p.lexer.Column, p.lexer.hadNewlineBefore, p.lexer.leadingComments, p.lexer.carriedComments
 //@   ensures [lexer] lexer.LexInv(p.lexer)
 //@   ensures [shift] eq(p.CurrentToken, old(p.PeekToken))
 //@   ensures [origin] lexer.LexTok(p.PeekToken)
@@ -798,7 +798,7 @@ func tablesSeeded(p *Parser) bool {
 //@ func newWithOptions(l, opts)
 //@   props C04 C05 C11 C13 C14 C16
 //@   requires [lexer] l != nil && lexer.LexInv(l)
-//@   modifies l.position, l.readPosition, l.CurrentChar, l.Line, l.Column, l.hadNewlineBefore, l.leadingComments
+//@   modifies l.position, l.readPosition, l.CurrentChar, l.Line, l.Column, l.hadNewlineBefore, l.leadingComments, l.carriedComments
 //@   loop 1 before [order.start@C04] i == len(opts.stmtInterceptors)-1
 //@   loop 1 each [order@C04] ncalls("(*Parser).useStatementInterceptor") == 1 && callArg[*Parser]("(*Parser).useStatementInterceptor", 0, 0) == p && eq(callArg[Interceptor[ast.Statement]]("(*Parser).useStatementInterceptor", 0, 1), opts.stmtInterceptors[atHead(i)]) && i == atHead(i)-1
 //@   loop 1 invariant [idx] -1 <= i && i < len(opts.stmtInterceptors)
